@@ -565,7 +565,17 @@ convertHelper(
 
     if (fGotDecimalPoint == false && theLength < theLongHackThreshold)
     {
-        return double(WideStringToLong(theString));
+        const long  theLong = WideStringToLong(theString);
+
+        if (theLong == 0)
+        {
+            // A long cannot carry the sign of zero: "-0" is negative zero.
+            consumeWhitespace(theString, theLength);
+
+            return *theString == XalanUnicode::charHyphenMinus ? -0.0 : 0.0;
+        }
+
+        return double(theLong);
     }
     else
     {
